@@ -137,6 +137,7 @@ def decObjOp (v : V) : Option (Obj.Op Nat Obj.Term × Bool) :=
       | .list [.atom "rebind", th] => (th.listOf? decKV).map Obj.Op.rebind
       | .list [.atom "editbk", .atom k, q] => q.rat?.map (Obj.Op.editbk k)
       | .list [.atom "attr", .atom k] => some (Obj.Op.attr k)
+      | .list [.atom "plot"] => some Obj.Op.plot
       | _ => none)
     pure (op, flag)
   | _ => none
@@ -280,8 +281,8 @@ def handle (args : List V) : V :=
     | _, _, _, _ => bad "shape.spec"
   -- C05
   | [.atom "ampfrac.model", va] =>
-    match va.listOf? V.rat? with
-    | some va => encList encRat (ampFraction va)
+    match va.listOf? V.orat? with
+    | some va => encList encORat (ampFractionN va)
     | _ => bad "ampfrac.model"
   | [.atom "ampcons.model", pc, dir, rises, decays] =>
     match pc.bool?, decDir dir, rises.listOf? V.rat?, decays.listOf? V.rat? with
